@@ -60,7 +60,7 @@ class C09(Prop):
                  "lemmas, and by running the REAL backend() under hook H1 (sanitizer build and plain build) against the model")
     level_text = ("PARTIAL (model level). Lean 4 theorem `backend_total` about the model `Backend` (nullable all_users, "
                   "connection records as serials, recovery points, error_handler flag protocol with the master handler ok / "
-                  "raising / raising recursively, heart-beat bookkeeping, call_out sweep, reset + clean_up sweep with the "
+                  "raising / catching an inner error and then raising, heart-beat bookkeeping, call_out sweep, reset + clean_up sweep with the "
                   "walk restarted after an error, preload_objects, remove_interactive, input_to, write_prompt, re-validation after callbacks, batches of "
                   "I/O events of one poll incl. stale entries and batches abandoned by a longjmp): for EVERY finite history of "
                   "external events (any number of accept / data / end-of-file / hang-up / console / timer events per poll, in "
